@@ -723,10 +723,15 @@ class Repo:
         for rel, text in self.overlay.items():
             files[rel] = text
         for rel in sorted(files):
-            text = files[rel]
-            if text is None:
+            if files[rel] is None:
                 with open(os.path.join(self.root, rel), encoding="utf8", errors="replace") as f:
-                    text = f.read()
+                    files[rel] = f.read()
+        normal = os.environ.get("SA_NO_NORMALIZE") != "1"
+        if normal:
+            from . import normalize
+            normalize.prepare_program(files)
+        for rel in sorted(files):
+            text = files[rel]
             if text == "\0DELETED":
                 continue
             parts = rel[:-3].split("/")
@@ -743,6 +748,8 @@ class Repo:
                 continue
             self.modules[name] = m
             self.by_path[rel] = m
+        if normal:
+            normalize.finish_program({rel: m.tree for rel, m in self.by_path.items()})
 
     def is_repo_modname(self, name):
         return name is not None and (name == PKG or name.startswith(PKG + "."))
